@@ -37,7 +37,8 @@ class Result:
             "repeated_terms": [0, 0, 0, 0], "evictions": [0, 0, 0],
             "entries": [0, 0, 0], "graph_starts": 0, "graph_ends": 0,
             "empty_prefix_iris": 0, "max_depth": 0, "options_rows": 0,
-            "namespace_rows": 0, "statements": 0,
+            "namespace_rows": 0, "statements": 0, "implicit_graph_close": 0,
+            "graph_open_at_end": 0,
         }
         self.n_rows = 0
         self.n_frames = 0
@@ -122,6 +123,8 @@ class RefDecoder:
             self.row_idx = -1
             self._fail("missing_options", "stream has no rows")
         self.res.options = self.opts
+        if self.graph_open and not self.dead:
+            self.res.audit["graph_open_at_end"] = 1
         return self.res
 
     # ---------------------------------------------------------- rows
@@ -176,6 +179,8 @@ class RefDecoder:
             if row[1] is None:
                 raise SpecViolation("graph_start_without_graph", "graph_start with no graph term")
             a["graph_starts"] += 1
+            if self.graph_open:
+                a["implicit_graph_close"] += 1
             self.graph = self.term(row[1], -1, True)
             self.graph_open = True
             return None
